@@ -21,6 +21,9 @@ package tests
 //   CASE <id> disk <nrep> raw       the DiskKVTest replicas are used exactly as NewDiskKVTest returns them (file system set, nothing
 //        else): SaveSnapshot may then answer ErrSnapshotAborted (allowed for SaveSnapshot only); P prepares 3 contexts at the same
 //        point, V retries with the next one ("V ok <aborted attempts>"), the unused ones are saved into a discarded buffer
+//   CASE <id> <kind> <nrep> [raw] reuse   buffer lifetime: the commands of an Update call are laid out in ONE buffer per replica
+//        that the executor overwrites as soon as the call has returned and reuses for the next call (the statemachine contracts give
+//        the machine no ownership of Entry.Cmd after Update returns)
 //   L <r> <key>   S <r> (Sync)   P <r> [@<s>] (PrepareSnapshot -> context slot s of replica r, default 0; several contexts of
 //        one machine may be outstanding)   V <r> [@<s>] (SaveSnapshot of context slot s -> snapshot slot s of replica r; KVTest:
 //        of the live state)
@@ -93,6 +96,8 @@ type vkReplica struct {
 	ctx  map[int][]interface{} // context slot -> outstanding contexts taken at one point (raw: spares for aborted saves)
 	snap map[int][]byte        // snapshot slot -> image
 	raw  bool                  // DiskKVTest as NewDiskKVTest returns it
+	reuse bool                 // Cmd buffers are recycled after every Update call
+	cbuf []byte
 	dead bool
 	// called when RecoverFromSnapshot has read the last byte of the snapshot it is given (the swap to the restored
 	// state follows): lets the concurrent phase concentrate its lookups on the end of a restore
@@ -137,8 +142,8 @@ func vkSlot(f []string) (int, []string) {
 	return 0, f
 }
 
-func vkNewReplica(kind string, cid, nid uint64, raw bool) *vkReplica {
-	r := &vkReplica{kind: kind, cid: cid, nid: nid, raw: raw && kind == "disk", ctx: map[int][]interface{}{}, snap: map[int][]byte{}}
+func vkNewReplica(kind string, cid, nid uint64, raw, reuse bool) *vkReplica {
+	r := &vkReplica{kind: kind, cid: cid, nid: nid, raw: raw && kind == "disk", reuse: reuse, ctx: map[int][]interface{}{}, snap: map[int][]byte{}}
 	switch kind {
 	case "kv":
 		r.kv = NewKVTest(cid, nid)
@@ -357,6 +362,38 @@ func vkOp(reps []*vkReplica, keys [][]byte, f []string) (out string) {
 			idx, _ := strconv.ParseUint(f[i], 10, 64)
 			ents = append(ents, sm.Entry{Index: idx, Cmd: vkDec(f[i+1])})
 		}
+		if r.reuse {
+			total := 0
+			for _, e := range ents {
+				total += len(e.Cmd)
+			}
+			if cap(r.cbuf) < total {
+				r.cbuf = make([]byte, total)
+			}
+			buf, off := r.cbuf[:total], 0
+			for i := range ents {
+				n := copy(buf[off:], ents[i].Cmd)
+				ents[i].Cmd = buf[off : off+n : off+n]
+				off += n
+			}
+			scribble := func() {
+				for i := range buf {
+					buf[i] = 0xA5
+				}
+			}
+			if r.kind == "kv" { // one Update call per entry: every command is overwritten right after its own call
+				for _, e := range ents {
+					if _, err := r.kv.Update(e); err != nil {
+						return "U err " + vkMsg(err)
+					}
+					for i := range e.Cmd {
+						e.Cmd[i] = 0xA5
+					}
+				}
+				return "U ok"
+			}
+			defer scribble()
+		}
 		switch r.kind {
 		case "kv":
 			for _, e := range ents {
@@ -555,7 +592,12 @@ func vkRunCase(lines []string) []string {
 			}
 		}()
 		for i := range reps {
-			reps[i] = vkNewReplica(kind, 1000+cidn, uint64(i+1), len(hdr) > 4 && hdr[4] == "raw")
+			raw, reuse := false, false
+			for _, t := range hdr[4:] {
+				raw = raw || t == "raw"
+				reuse = reuse || t == "reuse"
+			}
+			reps[i] = vkNewReplica(kind, 1000+cidn, uint64(i+1), raw, reuse)
 		}
 	}()
 	if reps == nil {
